@@ -256,32 +256,30 @@ pub fn check_range(tables: &Tables, init: &Model, recs: &[OpRec], r: &OpRec) -> 
         if key < lo || key > hi || key.is_empty() {
             continue;
         }
-        // modifications of this key
+        // Candidate states of the key while the scan ran: the initial state and the state
+        // installed by every accepted modification invoked before the scan returned,
+        // except states that were certainly superseded before the scan began (an
+        // accepted modification with a larger timestamp had already completed).
         let mods: Vec<&OpRec> = recs.iter().filter(|w| key_of(&w.op) == Some(ki as u8) && accepted_modification(w)).collect();
-        // the state after everything that completed before the scan began: replay those in timestamp order
-        let mut before: Vec<&&OpRec> = mods.iter().filter(|w| w.response < r.invoke).collect();
-        before.sort_by_key(|w| eff_ts(w));
-        let mut m = init.clone();
-        m.lenient_ts = true;
-        for w in before {
-            let _ = m.step(tables, &w.op, &w.out, w.ts);
-        }
-        let mut candidates: Vec<Option<Vec<u8>>> = vec![m.map.get(key).filter(|g| !m.expired(g)).map(|g| g.value.clone())];
-        let overlapping: Vec<&&OpRec> = mods.iter().filter(|w| overlaps(w, r)).collect();
-        // any subset/order of the overlapping modifications may have taken effect: collect the value each would install
-        for w in &overlapping {
-            let mut m2 = m.clone();
-            for w2 in &overlapping {
-                let _ = m2.step(tables, &w2.op, &w2.out, w2.ts);
-                candidates.push(m2.map.get(key).map(|g| g.value.clone()));
-                if std::ptr::eq(**w2, **w) {
-                    break;
-                }
+        let mut states: Vec<(u64, Option<Vec<u8>>)> = Vec::new();
+        let init_state = init.map.get(key).filter(|g| !init.expired(g));
+        states.push((init.map.get(key).map_or(0, |g| g.ts), init_state.map(|g| g.value.clone())));
+        let mut wildcard = recs.iter().any(|w| matches!(w.op, Op::Sweep) && accepted_modification(w));
+        for w in mods.iter().filter(|w| w.invoke < r.response) {
+            match (&w.op, &w.out) {
+                (Op::Insert { v, .. }, _) | (Op::Ifa { v, .. }, _) => states.push((eff_ts(w), Some(tables.values[*v as usize].clone()))),
+                (Op::Cas { new, .. }, _) => states.push((eff_ts(w), Some(tables.values[*new as usize].clone()))),
+                (Op::Incr { .. }, Out::Int(n)) => states.push((eff_ts(w), Some(n.to_le_bytes().to_vec()))),
+                (Op::Delete { .. }, _) => states.push((eff_ts(w), None)),
+                _ => wildcard = true, // TTL-only rewrites, patches: not modelled here
             }
-            let mut m3 = m.clone();
-            let _ = m3.step(tables, &w.op, &w.out, w.ts);
-            candidates.push(m3.map.get(key).map(|g| g.value.clone()));
         }
+        if wildcard {
+            continue;
+        }
+        let done_before: Vec<u64> = mods.iter().filter(|w| w.response < r.invoke).map(|w| eff_ts(w)).collect();
+        let candidates: Vec<Option<Vec<u8>>> =
+            states.iter().filter(|(ts, _)| !done_before.iter().any(|d| d > ts)).map(|(_, v)| v.clone()).collect();
         let got: Vec<&Vec<u8>> = pairs.iter().filter(|(k, _)| k == key).map(|(_, v)| v).collect();
         match got.len() {
             0 => {
